@@ -85,10 +85,19 @@ def run(sc, workdir):
     # a new parameter need not inherit the type of the parameter it replaces (e.g. a volume
     # parameter may be replaced by untyped ones; then no new parameter is dispersible)
     typ = removed[0].type if rng.random() < 0.65 else ""
+    directed = sc.get("directed") == "intermediate+dispersed"
+    if directed:
+        vols = [p for p in removed if p.type == "volume"]
+        if vols:
+            removed = vols + [p for p in removed if p not in vols]
+            kept = [p for p in sel if p not in removed]
+        typ = removed[0].type
     b0 = {p.id: float(p.default) for p in removed}
     assign = []
     xvals = {}
     form = rng.choice(["affine", "product", "quotient", "intermediate"])
+    if directed:
+        form = "intermediate"
     n1 = newids[0]
     n2 = newids[1] if len(newids) > 1 else None
     first = removed[0].id
